@@ -178,12 +178,39 @@ func cmdRace(in string) error {
 	case "maps":
 		m := sync2.New[int, int]()
 		set := list.NewConcurrentSets()
+		gset := list.NewGenericConcurrentSets[int]()
 		var wg sync.WaitGroup
+		var incoherent int64
 		for g := 0; g < sc.N; g++ {
 			wg.Add(1)
 			go func(g int) {
 				defer wg.Done()
+				own, ownS := 1000+g, fmt.Sprintf("own-%d", g)
 				for i := 0; i < sc.Iter; i++ {
+					// a key only this goroutine touches, while the others hammer the shared keys: whatever the interleaving, an
+					// atomic container answers these calls as if they ran alone (a sequential witness exists only then)
+					set.Put(ownS)
+					gset.Put(own)
+					m.Store(own, i)
+					if v, ok := m.Load(own); !ok || v != i {
+						atomic.AddInt64(&incoherent, 1)
+					}
+					if !set.Exists(ownS) || !gset.Exists(own) {
+						atomic.AddInt64(&incoherent, 1)
+					}
+					set.Remove(ownS)
+					gset.Remove(own)
+					m.Delete(own)
+					if _, ok := m.Load(own); ok {
+						atomic.AddInt64(&incoherent, 1)
+					}
+					if set.Exists(ownS) || gset.Exists(own) {
+						atomic.AddInt64(&incoherent, 1)
+					}
+					if v, loaded := m.LoadOrStore(own, -i); loaded || v != -i {
+						atomic.AddInt64(&incoherent, 1)
+					}
+					m.Delete(own)
 					k := i % 3
 					switch (i + g) % 7 {
 					case 0:
@@ -202,11 +229,20 @@ func cmdRace(in string) error {
 						set.Put(fmt.Sprint(k))
 						set.Exists(fmt.Sprint(k))
 						set.Remove(fmt.Sprint(k))
+						gset.Put(k)
+						gset.Exists(k)
+						gset.Remove(k)
 					}
+					// two goroutines removing the same present key at the same moment
+					set.Put("hot")
+					set.Remove("hot")
+					gset.Put(-1)
+					gset.Remove(-1)
 				}
 			}(g)
 		}
 		wg.Wait()
+		out["incoherent"] = atomic.LoadInt64(&incoherent)
 	default:
 		return fmt.Errorf("unknown race scenario kind %q", sc.Kind)
 	}
